@@ -596,6 +596,13 @@ class World:
                     return base.replace(**{rule[1]: rule[2]})
                 if kind == "fresh":
                     return w.build(rule[1], create_detached=True)
+                if kind == "mutate_raise":
+                    # the rule uses the library on the node it was handed, then fails (e.g. validating its result)
+                    node.replace(**{rule[1]: rule[2]})
+                    raise RuntimeError("rule failed after building its result")
+                if kind == "wrap_self":
+                    # wraps the node in a modified copy of itself (the copy keeps the id): never attachable
+                    return base.replace(tag="w", one=base)
                 if kind == "existing":
                     return w.node_at(rule[1])  # a pre-existing node of the user's (e.g. a definition looked up elsewhere)
                 if kind == "bad":
@@ -1371,6 +1378,25 @@ class Gen:
             bad = "transform_result_none_required"
         return {"act": "transform", "n": ref, "rules": rules, "bad": bad}
 
+    def rj_transform_rule_uses_library(self) -> dict[str, Any] | None:
+        """transform() whose rule calls node.replace(...) on the node it was given and then raises (directly on an
+        attached leaf, on a subtree, on a root), or hands back the node wrapped in a copy of itself."""
+        r = self.r("rj15")
+        ref = self.pick_ref(lambda o: not o.detached, root_bias=0.4)
+        if ref is None:
+            return None
+        o = self.w.node_at(ref)
+        if len(walk(o)) > 10:
+            return None
+        inners = [x for x in walk(o) if cname(x) == "LInner"]
+        if inners and r.random() < 0.4:
+            return {"act": "transform", "n": ref, "rules": {"LInner": "wrap_self"}, "bad": "transform_result_wraps_itself"}
+        withprops = sorted({cname(x) for x in walk(o) if L.PROP_FIELDS[cname(x)]})
+        if not withprops:
+            return None
+        c = r.choice(withprops) if r.random() < 0.6 or not L.PROP_FIELDS[cname(o)] else cname(o)
+        return {"act": "transform", "n": ref, "rules": {c: ["mutate_raise", L.PROP_FIELDS[c][0][0], "zz"]}, "bad": "transform_rule_replaces_then_raises" + ("_on_leaf" if not children_of(o) else "")}
+
     def rj_transform_raises(self) -> dict[str, Any] | None:
         r = self.r("rj12")
         ref = self.pick_ref(lambda o: not o.detached, root_bias=0.7)
@@ -1416,6 +1442,7 @@ def spec_of(o: Any) -> dict[str, Any]:
 
 
 REJECT_KINDS = [
+    "transform_rule_uses_library",
     "ctor_parent_collision",
     "ctor_parent_collision",
     "ctor_duplicate_children",
@@ -1450,6 +1477,11 @@ def make_config(rseed: int, prop: str, tier: str, faults: bool) -> dict[str, Any
             weights[k] *= 3
     if prop == "C19":
         weights["reject"] = r.choice([3, 5, 8])
+    else:
+        # rejected operations inside C18 histories: on a library that rejects cleanly they change nothing, so the
+        # history is still one of successful operations -- and whatever a rejection leaves behind is met by the
+        # structural invariants of the steps that follow
+        weights["reject"] = r.choice([0, 0.7, 1.5])
     return {
         "machine": NAME,
         "prop": prop,
